@@ -97,10 +97,9 @@ def householder(v):
 def gen_nuc(rng, exact):
     """nuc: NuclearNorm::prox on a small matrix (column-major), both constructors."""
     mode = rng.choice([0, 1, 1, 1])
-    r = rng.choice([0, 1, 1, 2, 2, 3, 3, 4, 4])
-    c = rng.choice([0, 1, 1, 2, 2, 3, 3, 4, 4])
-    if mode == 1 and r * c == 0 and rng.random() < 0.7:
-        r, c = max(r, 1), max(c, 1)
+    # non-empty matrices only: Eigen::BDCSVD (3.4.0) itself crashes on rows·cols = 0 (oracle precondition)
+    r = rng.choice([1, 1, 2, 2, 3, 3, 4, 4])
+    c = rng.choice([1, 1, 2, 2, 3, 3, 4, 4])
     k = min(r, c)
     γ = (2.0 ** rng.randint(-3, 3)) if exact else abs(rnd_val(rng, False)) + 1e-6
     lam = rng.choice([0.0, 1.0, abs(rnd_val(rng, exact)), abs(rnd_val(rng, exact)) + 2.0 ** -4])
@@ -320,6 +319,7 @@ def mat_of(flat, r, c):
 
 KEY_NUC_DYN = 'C15-NuclearNorm-dynamic-ctor-no-UV-eigen-3.4.0'
 KEY_CPLX_COMPILE = 'C15-L1NormComplex-prox-does-not-compile'
+KEY_CPLX_RANGE = 'C15-L1NormComplex-squared-magnitude-overflow-underflow'
 
 
 def monitor_cplx(kind, t, o_line):
@@ -351,16 +351,24 @@ def monitor_cplx(kind, t, o_line):
             f = 1 - tt / hp_sqrt(mag2)
             s = (a * f, b * f)
         e = tol(v[2 * i], v[2 * i + 1], tt)
+        # squared magnitudes outside the double range (overflow to inf / underflow below the normal range)
+        m2f = v[2 * i] * v[2 * i] + v[2 * i + 1] * v[2 * i + 1]
+        t2f = (γ * lam[i]) * (γ * lam[i])
+        out_of_range = (math.isinf(m2f) or math.isinf(t2f) or (mag2 > 0 and m2f < 2.0 ** -1000)
+                        or (tt > 0 and t2f < 2.0 ** -1000))
         for j in (0, 1):
             got = out1[2 * i + j]
             if not math.isfinite(got) or abs(Fr(got) - s[j]) > e:
-                return (f'complex soft-threshold [{i}].{"re" if j == 0 else "im"} = {got!r} is not the minimiser '
-                        f'of λ|u| + |u − v|²/(2γ): exact {float(s[j])!r} (v = ({v[2 * i]!r}, {v[2 * i + 1]!r}), '
-                        f'γλ = {float(tt)!r}, |Δ| > {e:.3g})')
+                msg = (f'complex soft-threshold [{i}].{"re" if j == 0 else "im"} = {got!r} is not the minimiser '
+                       f'of λ|u| + |u − v|²/(2γ): exact {float(s[j])!r} (v = ({v[2 * i]!r}, {v[2 * i + 1]!r}), '
+                       f'γλ = {float(tt)!r}, |Δ| > {e:.3g})')
+                if out_of_range:
+                    return (msg + ' — |v|² or (γλ)² leaves the double range', KEY_CPLX_RANGE)
+                return msg
         # optimality condition on the returned point itself
         s1, s2 = Fr(out1[2 * i]), Fr(out1[2 * i + 1])
         if s1 == 0 and s2 == 0:
-            if mag2 > tt * tt and hp_sqrt(mag2) - tt > e:
+            if mag2 > tt * tt and hp_sqrt(mag2) - tt > Fr(e):
                 return (f'complex soft-threshold [{i}] returned 0 but |v| = {float(hp_sqrt(mag2))!r} > γλ = '
                         f'{float(tt)!r}: 0 ∉ argmin')
         else:
@@ -368,7 +376,7 @@ def monitor_cplx(kind, t, o_line):
             # stationarity: v − s = γλ · s/|s|
             r1 = (a - s1) * ns - tt * s1
             r2 = (b - s2) * ns - tt * s2
-            if max(abs(r1), abs(r2)) > 4 * e * max(ns, hp_sqrt(mag2)):
+            if max(abs(r1), abs(r2)) > 4 * Fr(e) * max(ns, hp_sqrt(mag2)):
                 return (f'complex soft-threshold [{i}] = ({out1[2 * i]!r}, {out1[2 * i + 1]!r}) violates the '
                         f'optimality condition v − s = γλ·s/|s| (v = ({v[2 * i]!r}, {v[2 * i + 1]!r}), γλ = {float(tt)!r})')
         hexact += Fr(lam[i]) * hp_sqrt(s1 * s1 + s2 * s2)
@@ -626,6 +634,16 @@ def nontrivial(op, out):
     return None
 
 
+# fixed corner cases run first on every tier: squared magnitudes outside the double range
+CORPUS = [
+    f'cl1s {f2h(1.0)} {f2h(1e200)} {vec2p([3e200, 4e200])}',      # |v| = 5e200 > γλ = 1e200: code returns 0
+    f'cl1s {f2h(1.0)} {f2h(1e-200)} {vec2p([3e-200, 4e-200])}',   # |v| = 5e-200 > γλ = 1e-200: code returns 0
+    f'cl1v {vec2p([1.0])} {f2h(1e160)} {vec2p([3e200, 4e200])}',  # (γλ)² = inf ≥ |v|² = inf: code returns 0
+    f'cl1s {f2h(1.0)} {f2h(1e-170)} {vec2p([3e-160, 4e-160])}',   # small but in range: correct
+    f'cl1s {f2h(1.0)} {f2h(1e150)} {vec2p([3e150, -4e150])}',     # large but in range: correct
+]
+
+
 def impl_view(h):
     """What is compared bit for bit with the model: everything before ` # ` (after it: values the
     model does not reproduce bit-exactly — h of the complex norm (hypot) — or the oracle log)."""
@@ -690,24 +708,52 @@ if __name__ == '__main__':
         gen_scripts=['gen_c15.py'], modules=['Alpaqa.Props.C15'], driver='drv_c15',
         extra_sources=['Alpaqa/Model/C15.lean', 'Alpaqa/Model/C15Base.lean', 'Alpaqa/Gen/C15.lean',
                        'Alpaqa/Proofs/Basic.lean', 'Alpaqa/Proofs/C15Lemmas.lean', 'Alpaqa/Proofs/C15Cplx.lean',
+                       'Alpaqa/Proofs/C15Nuc.lean',
                        'Alpaqa/Model/Vec.lean', 'Alpaqa/Model/Scalar.lean', 'Driver/C15.lean'],
         harness_name='c15', harness_sources=[os.path.join(C.VERIF, 'harness', 'c15.cpp')],
-        gen_ops=gen_ops, monitor=monitor, nontrivial=nontrivial,
+        gen_ops=gen_ops, monitor=monitor, nontrivial=nontrivial, corpus=CORPUS,
         driver_input=driver_input, impl_view=impl_view, extra_stage=extra_stage,
         n_quick=4000, n_thorough=60000,
         trusted_base=[
             'Lean 4.33 kernel + Mathlib (axioms: propext, Classical.choice, Quot.sound)',
             'gen/cxxparse.py + gen/lean_emit.py + gen/gen_c15.py (translator: componentwise Eigen '
             'expressions of box-constr-problem.hpp, box.hpp, indicator-box.hpp, l1-norm.hpp, '
-            'unconstr-problem.hpp → Lean)',
-            'hand models Alpaqa/Model/C15.lean (inactive indices, multiplier projection, prox '
-            'dispatch) tied by bit-exact correspondence on the explored inputs only',
-            'theorems are over ordered fields (real-number semantics); IEEE rounding not modelled',
-            'not modelled: L1NormComplex, NuclearNorm (SVD oracle) — see DESIGN §6 C15',
+            'unconstr-problem.hpp; the two soft_thres lambdas and the two return statements of '
+            'L1NormComplex::prox; step / singular_values / value / it0 / rank of NuclearNorm::prox, with the '
+            'selection + reconstruction statements pinned textually → Lean)',
+            'complex numbers in the translator: cplx_t = (re, im) pair, std::complex<T> * T scales both parts, '
+            'the int literal 0 in `?:` converts to (0, 0) — confirmed by the bit-exact run on out',
+            'hand models Alpaqa/Model/C15.lean (inactive indices, multiplier projection, prox dispatch, '
+            'L1NormComplex dispatch incl. the pair-reinterpreting overload, NuclearNorm post-SVD part and '
+            'reconstruction order) tied by bit-exact correspondence on the explored inputs only',
+            'theorems are over ordered fields (real-number semantics), the complex-ℓ1 ones over ordered fields '
+            'with a lawful sqrt (ℝ instance constructed); IEEE rounding not modelled',
+            'Eigen::BDCSVD is an oracle: the model takes σ, U, V as logged from the real run; that U·diag(s)·Vᵀ '
+            'is the matrix prox (SVD contract + von Neumann trace inequality) is NOT proved '
+            '(nuclear_prox_partial) — the monitor checks it against an independent pure-Python one-sided '
+            'Jacobi SVD (checks/c15.py jacobi_svd; no numpy in the check interpreter) and exact closed forms for '
+            'permuted-diagonal and rank-one inputs',
+            'returned h of L1NormComplex uses std::abs(complex) = hypot: compared by the monitor against the '
+            'exact value with a few-ulp tolerance, not bit for bit (model uses sqrt(re²+im²))',
+            'harness shim: an extra vec_util::norm_1 overload for non-column expressions is declared before '
+            'l1-norm.hpp, because the shipped L1NormComplex::prox does not compile without it (probed '
+            'separately; finding ' + KEY_CPLX_COMPILE + ')',
+            'nuc ops run in a forked child so that a crash of the real code is an output line',
         ],
         assumptions=['Eigen cwiseMax/cwiseMin = std::max/std::min; harness flags -O1 -ffp-contract=off '
-                     '-DEIGEN_DONT_VECTORIZE pin evaluation order'],
-        rule='seeded random op lines over {pgs, inact, pmult, proj, pstep, l1s, l1v, unc}: n∈{0..6}, '
-             '40% exact-regime dyadic inputs with ties placed on thresholds, infinite / equal '
-             'bounds, λ=0 entries; distinct = distinct op lines with n ≥ 1',
+                     '-DEIGEN_DONT_VECTORIZE pin evaluation order',
+                     'Eigen evaluates U1*Σ1*V1T below its GEMM threshold as a lazy coefficient product '
+                     '(left fold over k) — confirmed by the bit-exact run',
+                     'NuclearNorm: non-empty matrices only (Eigen::BDCSVD precondition; rows·cols = 0 crashes '
+                     'inside Eigen 3.4.0 and is not generated)',
+                     'nuclear-norm theorems: σ sorted non-increasing (BDCSVD contract, re-checked by the monitor '
+                     'on every run)'],
+        rule='seeded random op lines over {pgs, inact, pmult, proj, pstep, l1s, l1v, unc, cl1s, cl1v, nuc}: '
+             'n∈{0..6}, 40% exact-regime dyadic inputs with ties placed on thresholds, infinite / equal '
+             'bounds, λ=0 entries; cl1*: 0..4 complex numbers as (re, im) pairs, Pythagorean triples scaled so '
+             'that |z| = γλ exactly / just off, zero parts, empty weight vector, both overloads; nuc: both '
+             'constructors, 1..4 × 1..4 matrices: permuted diagonal (σ = γλ exactly), rank one, exact rational '
+             'orthogonal factors (Householder) with chosen / repeated / on-threshold singular values, random, '
+             'zero, λ = 0; fixed corner ops first (complex inputs with |v|² / (γλ)² outside and just inside the '
+             'double range); distinct = distinct op lines with n ≥ 1',
     ))
